@@ -10,7 +10,7 @@ Alphabet ==
     {[e |-> "phase", k |-> k] : k \in 0..2}
     \cup {[e |-> "pm", p |-> p, m |-> m] : p \in {1, 2, 3}, m \in {"in", "out", "inpu"}}
     \cup {[e |-> "out", p |-> p] : p \in {1, 3}} \cup {[e |-> "in", p |-> p] : p \in {2}}
-    \cup {[e |-> "sbegin", b |-> b] : b \in {9600, 115200}} \cup {[e |-> "ser"], [e |-> "user"]}
+    \cup {[e |-> "sbegin", b |-> b] : b \in {9600, 115200}} \cup {[e |-> "ser"], [e |-> "user"], [e |-> "handler"]}
     \cup {[e |-> "attach", s |-> 0], [e |-> "servo", s |-> 0], [e |-> "lcdinit", d |-> 0], [e |-> "lcd", d |-> 0]}
     \cup {[e |-> "stop", m |-> 0], [e |-> "drive", m |-> 0], [e |-> "poll", b |-> "b"]}
 MInit == BInit /\ h = <<>>
